@@ -495,7 +495,7 @@ class VeritImpliesMacro(Macro):
         # goal : ~a | b  pt: |- a --> b
         goal = Or(*args)
         pt = prevs[0]
-        if Or(Not(pt.prop.arg1), pt.prop.arg) == goal:
+        if pt.prop.is_implies() and Or(Not(pt.prop.arg1), pt.prop.arg) == goal:
             return Thm(goal, pt.hyps)
         else:
             raise VeriTException("implies", "unexpected goal %s" % goal)
